@@ -4,6 +4,7 @@ from ..core.davsys import Config
 from . import e1common
 
 ASSUME = [
+    "one configuration has two workers: a second application object with its own store cache on the same directory (gunicorn workers = 2 in the repository's examples); every write is offered to either worker, and after every request both workers are audited and must show the same",
     "after every step of every explored history one report is issued per token issued earlier in that history, plus the empty token: all pairs (i, j>=i)",
     "expected change list = diff of the audited member->etag maps at i and j (created/changed with current etag, removed as 404, nothing else, each once)",
     "foreign tokens (zeros, other collection's token, a blob id, the HEAD commit id, non-hex, non-ASCII, URL) must get an error status; any status >= 400 is accepted",
@@ -23,6 +24,7 @@ def configs(tier):
         Config(front="aio", backend="bare", prefix="/dav/", features=feats, names=names, bodies=bodies, props=props, oracles=set()),
     ]
     out.append(Config(front="wsgi", backend="tree", prefix="/", features={"sync", "sync-held", "restart"}, names=names, bodies=bodies, props=props, oracles=set(), label="tree/wsgi+held-token"))
+    out.append(Config(front="wsgi", backend="tree", prefix="/", features={"sync", "two-workers"}, names=names, bodies={"cal": ["X", "X2"], "ab": ["K"], "c2": []}, props={}, oracles=set(), label="tree/wsgi+two-workers"))
     if tier == "thorough":
         out += [
             Config(front="aio", backend="tree", prefix="/dav/", features=feats | {"post"}, names=names, bodies=bodies, props=props, oracles=set()),
